@@ -1,6 +1,6 @@
 (* Ty.v — the Go type grammar goverter works on, an environment of named types, and the
    view xtype.Type gives of a type (xtype/type.go TypeOf/applyTo, asID, xtype/access.go). *)
-From Coq Require Import List NArith Bool String Ascii.
+From Coq Require Import List NArith ZArith Bool String Ascii.
 From GV Require Import Base.
 Import ListNotations.
 Open Scope N_scope.
@@ -27,7 +27,8 @@ Record ndecl := {
   n_name : rstr;
   n_under : ty;             (* underlying type: never TNamed *)
   n_enum : bool;            (* enum.Detect succeeds: named basic with a constant in its package *)
-  n_methods : list (rstr * ty)   (* method name, result type of argument-less methods usable as sources *)
+  n_methods : list (rstr * ty);  (* method name, result type of argument-less methods usable as sources *)
+  n_consts : list (rstr * Z)     (* constants of this type declared in its package: name, value token *)
 }.
 Definition env := list ndecl.
 
